@@ -1,74 +1,343 @@
-//! Engine E2: libFuzzer drives the *same* proptest strategies through a byte tape
-//! (`RngAlgorithm::PassThrough`), calls the same `check`, shrinks with the ValueTree, writes the same
-//! replay file and aborts. Known findings are tolerated in-target so that a campaign does not
-//! rediscover one crash forever.
+//! Engine E2: coverage-guided fuzzing (libFuzzer) of the history-shaped properties.
+//!
+//! The fuzz input *is* the property's scenario, serialised as JSON - the same format as the replay
+//! files - so every corpus entry and every crash artifact is directly replayable with
+//! `./run replay`. A custom mutator keeps inputs structurally valid: it parses the JSON, applies a
+//! structure-aware mutation to the value tree (tweak a number, delete / duplicate / swap array
+//! elements, splice in a sub-tree of a freshly generated scenario, or start from a fresh scenario
+//! drawn from the property's own proptest strategy) and only emits results that deserialise and lie
+//! inside the property's input domain (`Property::valid`). The semantic oracle is the property's own
+//! `check`; known findings are tolerated in-target; failures are shrunk structurally, written as a
+//! replay file and reported with the usual VIOLATION line before aborting.
+//!
+//! (The first design - feeding libFuzzer's bytes to proptest through `RngAlgorithm::PassThrough` - does
+//! not work for these strategies: proptest forks the RNG for every lazily built `prop_oneof!`
+//! alternative, and PassThrough forks by halving the remaining tape, which exhausts it after ~18
+//! forks whatever its length; the strategy then spins forever on an all-zero stream.)
 use crate::common::*;
 use proptest::strategy::{Strategy, ValueTree};
-use proptest::test_runner::{Config, RngAlgorithm, TestRng, TestRunner};
+use proptest::test_runner::{Config, RngAlgorithm, RngSeed, TestRunner};
+use serde_json::Value;
 use std::sync::OnceLock;
 
 fn known() -> &'static Vec<Finding> {
     static K: OnceLock<Vec<Finding>> = OnceLock::new();
     K.get_or_init(load_findings)
 }
-
-pub fn run<P: Property>(data: &[u8]) {
+fn init() {
     static HOOK: OnceLock<()> = OnceLock::new();
     HOOK.get_or_init(install_silent_panic_hook);
-    let mut tape = data.to_vec();
-    let mut x = hash_of(data) | 1;
-    while tape.len() < data.len() + 262_144 {
-        x ^= x << 13;
-        x ^= x >> 7;
-        x ^= x << 17;
-        tape.extend_from_slice(&x.to_le_bytes());
+}
+fn fails<P: Property>(s: &P::Scenario) -> Option<Violation> {
+    match guarded_check::<P>(s) {
+        Ok(_) => None,
+        Err(v) => {
+            if known().iter().any(|f| f.property == P::ID && f.key == v.key && f.status == "known") {
+                None
+            } else {
+                Some(v)
+            }
+        }
     }
-    let rng = TestRng::from_seed(RngAlgorithm::PassThrough, &tape);
-    let mut runner = TestRunner::new_with_rng(Config { failure_persistence: None, ..Config::default() }, rng);
-    let strategy = P::strategy(Tier::Thorough);
-    let Ok(mut tree) = strategy.new_tree(&mut runner) else { return };
-    let fails = |s: &P::Scenario| -> Option<Violation> {
-        match guarded_check::<P>(s) {
-            Ok(_) => None,
-            Err(v) => {
-                if known().iter().any(|f| f.property == P::ID && f.key == v.key && f.status == "known") {
-                    None
-                } else {
-                    Some(v)
+}
+fn parse<P: Property>(v: &Value) -> Option<P::Scenario> {
+    let s: P::Scenario = serde_json::from_value(v.clone()).ok()?;
+    if P::valid(&s) {
+        Some(s)
+    } else {
+        None
+    }
+}
+
+/// A fresh scenario from the property's own strategy, deterministically from `seed`.
+pub fn fresh<P: Property>(seed: u64) -> P::Scenario {
+    let config = Config { failure_persistence: None, rng_seed: RngSeed::Fixed(seed), rng_algorithm: RngAlgorithm::ChaCha, ..Config::default() };
+    let mut runner = TestRunner::new(config);
+    P::strategy(Tier::Thorough).new_tree(&mut runner).expect("strategy").current()
+}
+
+struct Lcg(u64);
+impl Lcg {
+    fn next(&mut self) -> u64 {
+        self.0 = splitmix(self.0);
+        self.0
+    }
+    fn below(&mut self, n: usize) -> usize {
+        if n == 0 {
+            0
+        } else {
+            (self.next() % n as u64) as usize
+        }
+    }
+}
+
+#[derive(Clone, Debug)]
+enum Seg {
+    Key(String),
+    Idx(usize),
+}
+fn walk(v: &Value, path: &mut Vec<Seg>, nums: &mut Vec<Vec<Seg>>, arrays: &mut Vec<Vec<Seg>>, all: &mut Vec<Vec<Seg>>) {
+    all.push(path.clone());
+    match v {
+        Value::Number(_) => nums.push(path.clone()),
+        Value::Array(a) => {
+            arrays.push(path.clone());
+            for (i, x) in a.iter().enumerate() {
+                path.push(Seg::Idx(i));
+                walk(x, path, nums, arrays, all);
+                path.pop();
+            }
+        }
+        Value::Object(o) => {
+            for (k, x) in o {
+                path.push(Seg::Key(k.clone()));
+                walk(x, path, nums, arrays, all);
+                path.pop();
+            }
+        }
+        _ => {}
+    }
+}
+fn get<'a>(v: &'a Value, path: &[Seg]) -> Option<&'a Value> {
+    let mut cur = v;
+    for s in path {
+        cur = match s {
+            Seg::Key(k) => cur.get(k)?,
+            Seg::Idx(i) => cur.get(*i)?,
+        };
+    }
+    Some(cur)
+}
+fn get_mut<'a>(v: &'a mut Value, path: &[Seg]) -> Option<&'a mut Value> {
+    let mut cur = v;
+    for s in path {
+        cur = match s {
+            Seg::Key(k) => cur.get_mut(k)?,
+            Seg::Idx(i) => cur.get_mut(*i)?,
+        };
+    }
+    Some(cur)
+}
+fn tweak_number(n: &serde_json::Number, r: &mut Lcg) -> Value {
+    if let Some(i) = n.as_i64() {
+        let c = r.below(10);
+        let out = match c {
+            0 => i.wrapping_add(1),
+            1 => i.wrapping_sub(1),
+            2 => i.wrapping_mul(2),
+            3 => i / 2,
+            4 => i.wrapping_neg(),
+            5 => 0,
+            6 => 1,
+            7 => i.wrapping_add((r.next() % 1000) as i64 - 500),
+            8 => i.wrapping_mul(1000),
+            _ => i / 1000,
+        };
+        return Value::from(out);
+    }
+    if let Some(u) = n.as_u64() {
+        return Value::from(u / 2);
+    }
+    let f = n.as_f64().unwrap_or(0.0);
+    let c = r.below(10);
+    let out = match c {
+        0 => -f,
+        1 => 0.0,
+        2 => f * 2.0,
+        3 => f * 0.5,
+        4 => f + 0.25,
+        5 => (f as f32 as f64) * (1.0 + 1.1920929e-7),
+        6 => f * 10.0,
+        7 => f / 10.0,
+        8 => 1.0,
+        _ => f.round(),
+    };
+    serde_json::Number::from_f64(out as f32 as f64).map(Value::Number).unwrap_or(Value::from(0.0))
+}
+
+fn mutate_value<P: Property>(base: &Value, r: &mut Lcg) -> Value {
+    let mut v = base.clone();
+    let (mut nums, mut arrays, mut all) = (Vec::new(), Vec::new(), Vec::new());
+    walk(&v, &mut Vec::new(), &mut nums, &mut arrays, &mut all);
+    match r.below(100) {
+        0..=34 if !nums.is_empty() => {
+            // tweak one to three numbers
+            for _ in 0..1 + r.below(3) {
+                let p = &nums[r.below(nums.len())];
+                if let Some(Value::Number(n)) = get(&v, p).cloned() {
+                    let t = tweak_number(&n, r);
+                    if let Some(slot) = get_mut(&mut v, p) {
+                        *slot = t;
+                    }
                 }
             }
         }
-    };
-    let first = tree.current();
-    let Some(mut last_violation) = fails(&first) else { return };
-    let mut last_fail = first;
-    // shrink
-    let mut steps = 0;
-    if tree.simplify() {
-        loop {
-            steps += 1;
-            if steps > 20_000 {
-                break;
+        35..=59 if !arrays.is_empty() => {
+            let p = arrays[r.below(arrays.len())].clone();
+            if let Some(Value::Array(a)) = get_mut(&mut v, &p) {
+                let n = a.len();
+                match r.below(5) {
+                    0 if n > 0 => {
+                        a.remove(r.below(n));
+                    }
+                    1 if n > 0 => {
+                        let i = r.below(n);
+                        let x = a[i].clone();
+                        a.insert(r.below(n + 1), x);
+                    }
+                    2 if n > 1 => {
+                        let (i, j) = (r.below(n), r.below(n));
+                        a.swap(i, j);
+                    }
+                    3 if n > 1 => {
+                        a.truncate(1 + r.below(n - 1));
+                    }
+                    _ if n > 0 => {
+                        // repeat a slice at the end (long-range state)
+                        let i = r.below(n);
+                        let tail: Vec<Value> = a[i..].to_vec();
+                        a.extend(tail);
+                    }
+                    _ => {}
+                }
             }
-            let cur = tree.current();
-            if let Some(v) = fails(&cur) {
-                last_fail = cur;
-                last_violation = v;
-                if !tree.simplify() {
+        }
+        60..=84 => {
+            // crossover with a fresh scenario: replace a random sub-tree by the sub-tree at the same path, or splice arrays
+            let f = serde_json::to_value(fresh::<P>(r.next())).unwrap();
+            if !all.is_empty() {
+                let p = all[r.below(all.len())].clone();
+                if let (Some(theirs), true) = (get(&f, &p).cloned(), !p.is_empty()) {
+                    match (get_mut(&mut v, &p), theirs) {
+                        (Some(Value::Array(mine)), Value::Array(th)) if r.below(2) == 0 => {
+                            let cut = r.below(mine.len() + 1);
+                            mine.truncate(cut);
+                            let from = r.below(th.len() + 1);
+                            mine.extend(th[from..].iter().cloned());
+                        }
+                        (Some(slot), th) => *slot = th,
+                        _ => {}
+                    }
+                } else {
+                    v = f;
+                }
+            }
+        }
+        _ => v = serde_json::to_value(fresh::<P>(r.next())).unwrap(),
+    }
+    v
+}
+
+/// libFuzzer custom mutator (see `fuzz_mutator!` in the targets).
+pub fn mutate<P: Property>(data: &mut [u8], size: usize, max_size: usize, seed: u32) -> usize {
+    init();
+    let mut r = Lcg(seed as u64 ^ 0x5DEECE66D);
+    let current: Option<Value> = serde_json::from_slice::<Value>(&data[..size.min(data.len())]).ok().filter(|v| parse::<P>(v).is_some());
+    let mut out: Option<Vec<u8>> = None;
+    if let Some(base) = &current {
+        for _ in 0..8 {
+            let m = mutate_value::<P>(base, &mut r);
+            if parse::<P>(&m).is_some() {
+                let bytes = serde_json::to_vec(&m).unwrap();
+                if bytes.len() <= max_size.min(data.len()) {
+                    out = Some(bytes);
                     break;
                 }
-            } else if !tree.complicate() {
-                break;
             }
         }
     }
-    let rf = ReplayFile { property: P::ID.to_string(), key: last_violation.key.clone(), message: last_violation.message.clone(), scenario: serde_json::to_value(&last_fail).unwrap() };
+    let bytes = match out {
+        Some(b) => b,
+        None => {
+            let mut b = Vec::new();
+            for _ in 0..8 {
+                b = serde_json::to_vec(&fresh::<P>(r.next())).unwrap();
+                if b.len() <= max_size.min(data.len()) {
+                    break;
+                }
+            }
+            if b.len() > max_size.min(data.len()) {
+                return size; // keep the input as it is
+            }
+            b
+        }
+    };
+    data[..bytes.len()].copy_from_slice(&bytes);
+    bytes.len()
+}
+
+/// structural shrink: greedily delete array elements while the (unknown) violation persists
+fn shrink<P: Property>(mut v: Value, mut viol: Violation) -> (Value, Violation) {
+    for _round in 0..6 {
+        let mut progress = false;
+        let (mut nums, mut arrays, mut all) = (Vec::new(), Vec::new(), Vec::new());
+        walk(&v, &mut Vec::new(), &mut nums, &mut arrays, &mut all);
+        for p in arrays.iter().rev() {
+            let len = match get(&v, p) {
+                Some(Value::Array(a)) => a.len(),
+                _ => continue,
+            };
+            let mut i = len;
+            while i > 0 {
+                i -= 1;
+                let mut cand = v.clone();
+                if let Some(Value::Array(a)) = get_mut(&mut cand, p) {
+                    if i < a.len() {
+                        a.remove(i);
+                    }
+                }
+                if let Some(s) = parse::<P>(&cand) {
+                    if let Some(nv) = fails::<P>(&s) {
+                        v = cand;
+                        viol = nv;
+                        progress = true;
+                    }
+                }
+            }
+        }
+        if !progress {
+            break;
+        }
+    }
+    (v, viol)
+}
+
+/// libFuzzer target body.
+pub fn run<P: Property>(data: &[u8]) {
+    init();
+    let Ok(v) = serde_json::from_slice::<Value>(data) else { return };
+    // accept both bare scenarios and replay files
+    let v = if v.get("scenario").is_some() && v.get("property").is_some() { v["scenario"].clone() } else { v };
+    let Some(s) = parse::<P>(&v) else { return };
+    let Some(viol) = fails::<P>(&s) else { return };
+    let (v, viol) = shrink::<P>(v, viol);
+    let rf = ReplayFile { property: P::ID.to_string(), key: viol.key.clone(), message: viol.message.clone(), scenario: v };
     let dir = verif_root().join("work").join("replays");
     let _ = std::fs::create_dir_all(&dir);
     let text = serde_json::to_string_pretty(&rf).unwrap();
     let path = dir.join(format!("{}-fuzz-{:016x}.json", P::ID, hash_of(&text)));
     let _ = std::fs::write(&path, text);
-    println!("violation detail: key={} message={}", last_violation.key, last_violation.message);
+    println!("violation detail: key={} message={}", viol.key, viol.message);
     println!("VIOLATION property={} replay={}", P::ID, path.display());
     std::process::abort();
+}
+
+/// `rrtk-verif corpus:<ID> <dir>`: seed corpus = generated scenarios + the property's saved regressions
+pub fn write_corpus<P: Property>(dir: &std::path::Path) -> i32 {
+    let _ = std::fs::create_dir_all(dir);
+    let seed0 = std::env::var("VERIF_SEED").ok().and_then(|s| s.parse::<u64>().ok()).unwrap_or(20261002);
+    for i in 0..48u64 {
+        let s = fresh::<P>(splitmix(seed0 ^ i));
+        let _ = std::fs::write(dir.join(format!("gen-{:02}.json", i)), serde_json::to_vec(&s).unwrap());
+    }
+    if let Ok(rd) = std::fs::read_dir(verif_root().join("regressions").join(P::ID)) {
+        for e in rd.flatten() {
+            if let Ok(text) = std::fs::read_to_string(e.path()) {
+                if let Ok(rf) = serde_json::from_str::<ReplayFile>(&text) {
+                    let _ = std::fs::write(dir.join(format!("reg-{}", e.file_name().to_string_lossy())), serde_json::to_vec(&rf.scenario).unwrap());
+                }
+            }
+        }
+    }
+    0
 }
